@@ -33,6 +33,7 @@ type Options struct {
 	PersistDelay  time.Duration // persister delay threshold
 	PersistBundle int           // persister bundle-count threshold
 	Recovery      *lifecycle.ErrRecoveryCfg
+	PipelinesDir  string // the directory provisioning.Service.Init reads (driver provinit)
 }
 
 // Control is the part of the two lifecycle services the drivers use.
@@ -101,7 +102,7 @@ func New(w *fakes.World, db *store.DB, opt Options) *Engine {
 		e.LC = e.V1
 		lcForProv, lcForOrch = e.V1, e.V1
 	}
-	e.Prov = provisioning.NewService(store.Tagged{DB: db, Tag: "prov"}, l, e.Pipes, e.Conns, e.Procs, w, lcForProv, "")
+	e.Prov = provisioning.NewService(store.Tagged{DB: db, Tag: "prov"}, l, e.Pipes, e.Conns, e.Procs, w, lcForProv, opt.PipelinesDir)
 	e.Orch = orchestrator.NewOrchestrator(db, l, e.Pipes, e.Conns, e.Procs, w, procPlugins{w}, lcForOrch)
 	return e
 }
